@@ -70,3 +70,31 @@ func TestC05_defaults_constructor(t *testing.T) {
 		},
 	})
 }
+
+// TestC05_shares_model: the partition shares of the lookup and predicate strategies are part of what C05 promises
+// ("shares of the current total limit"). The C03 reference model compares every bin's share with
+// max(1, ceil(limit x fraction)) of the limit in force after every operation - limit changes, partitions added,
+// removed, put back, registered under a second name, a second strategy over the same objects; here the same run is
+// judged for C05 with a generator that moves the limit more often.
+func TestC05_shares_model(t *testing.T) {
+	kit.RequireMode(t, "std")
+	kit.Check(t, kit.Prop[c03Case]{
+		ID: "C05", Quick: 2500, Thor: 300_000,
+		Rule: "partition sets x acquire / release / SetLimit / add / remove / put-back / second-name / rebuild sequences against the reference model of the partitioned strategies: after every operation every bin's share equals max(1, ceil(limit in force x fraction)), also for partition objects registered under two names; non-trivial = as TestC03_model",
+		Gen: func(t *rapid.T) c03Case {
+			c := genC03(t)
+			// more limit movement: every third release becomes a SetLimit
+			n := 0
+			for i := range c.Ops {
+				if c.Ops[i].K == "rel" {
+					n++
+					if n%3 == 0 {
+						c.Ops[i] = c03Op{K: "set", N: 1 + (i*7)%40}
+					}
+				}
+			}
+			return c
+		},
+		Run: runC03,
+	})
+}
